@@ -314,13 +314,14 @@ func runC02(rc *RunCtx) {
 		ny := G.Draw(8)
 		pause := time.Duration(G.Draw(3)) * 200 * time.Millisecond
 		simrt.GoNamed("c02-listener-close", func() {
-			// (relaying = its target has been reached: a dial still in flight is
-			// cancelled with the listener's context, and rightly so)
+			// (relaying = a byte has crossed its target connection: a dial still in
+			// flight is cancelled with the listener's context, and rightly so, and a
+			// server may as well drop what it has dialed but not begun to relay)
 			all := false
 			for tries := 0; tries < 2000 && !all; tries++ {
 				all = true
 				for _, c := range conns {
-					if c.dialErr == nil && c.tc == nil {
+					if c.dialErr == nil && (c.tc == nil || (len(c.tc.C.Peer().Wrote) == 0 && (c.client == nil || len(c.client.Peer().Wrote) == 0))) {
 						all = false
 					}
 				}
